@@ -380,11 +380,67 @@ def run(R):
         fam = [rp] + [c for c in web.bodies if c.path.startswith(rp.path + '::') and c.kind == 'closure']
         okr = any(any('k' in a and a['k'].get('fn', '').endswith('client_response') for a in t['args']) for fb in fam for bb, t in fb.calls(name='map'))
         R.check(okr, 'C17.R3', 'response-wrapped', site(rp), 'response.map(GrpcWebCall::client_response)')
+        def built_by(caller, t_):
+            """the GrpcWebCall a constructor call builds, as {field: [values]}, with the constant arguments of this call site applied:
+            only the constructor's paths consistent with them count (so new(.., Role::Client) is read like new_client(..))"""
+            cands = [x for x in web.bodies if x.kind == 'fn' and x.path == (t_.get('fn') or '')]
+            if len(cands) != 1:
+                raise CheckError('UNRECOGNISED: constructor %s called from %s not found' % (t_.get('fn'), caller.path))
+            cal = cands[0]
+            R.saw(cal)
+            argv = {}
+            for n_, a_ in enumerate(t_['args']):
+                v_ = strip_refs(mirlib.simplify(caller.origin(a_)))
+                if v_ and v_[0] == 'agg' and v_[1].get('variant') and not v_[2]:
+                    argv[n_ + 1] = ('variant', v_[1]['variant'])
+                elif isinstance(const_val(v_), bool):
+                    argv[n_ + 1] = ('bool', const_val(v_))
+            ag_ = mirlib.aggregates(cal, 'call::GrpcWebCall')
+            if len(ag_) != 1:
+                raise CheckError('UNRECOGNISED: %s builds %d GrpcWebCall values' % (cal.path, len(ag_)))
+            abb, ai, ap, aa, aops = ag_[0]
+            meta_ = {}
+            out = {}
+            for cons_, path_ in mirlib.path_rows(cal, stop={abb}, meta=meta_):
+                if path_[-1] != abb:
+                    continue
+                consistent = True
+                for sub_, op_, v_ in cons_:
+                    tm_ = meta_.get('__terms__', {}).get(sub_)
+                    base_ = strip_refs(tm_[1]) if tm_ and tm_[0] == 'discr' else strip_refs(tm_) if tm_ else None
+                    if not (base_ and base_[0] == 'arg' and base_[1] in argv):
+                        continue
+                    kind_, val_ = argv[base_[1]]
+                    if kind_ == 'variant' and tm_[0] == 'discr' and len(tm_) > 2 and tm_[2]:
+                        names_ = dict(tm_[2])
+                        if op_ == '==' and names_.get(v_) != val_:
+                            consistent = False
+                        if op_ == 'notin' and val_ in [names_.get(x_) for x_ in v_]:
+                            consistent = False
+                        if op_ == 'in' and val_ not in [names_.get(x_) for x_ in v_]:
+                            consistent = False
+                    elif kind_ == 'bool':
+                        truth_ = (op_ == '==' and v_ not in (0, False)) or (op_ in ('!=',) and v_ in (0, False)) or (op_ == 'notin' and 0 in v_)
+                        if truth_ != val_:
+                            consistent = False
+                if not consistent:
+                    continue
+                for f_, o_ in zip(aa['fields'], aops):
+                    v_ = strip_refs(mirlib.simplify(cal.origin_on_path(o_, path_)))
+                    if v_ and v_[0] == 'arg' and v_[1] - 1 < len(t_['args']):
+                        v_ = strip_refs(mirlib.simplify(caller.origin(t_['args'][v_[1] - 1])))
+                    out.setdefault(f_, [])
+                    if v_ not in out[f_]:
+                        out[f_].append(v_)
+            return cal, out
         for nm, dirn, cl in (('client_request', 'Encode', True), ('client_response', 'Decode', True)):
             b = web.body('call::GrpcWebCall::<B>::' + nm)
-            bb, t = b.call1(name='new_client')
-            d = strip_refs(b.origin(t['args'][1]))
-            R.check(d[0] == 'agg' and d[1].get('variant') == dirn, 'C17.R3', '%s:direction' % nm, site(b, bb), 'direction = %s' % show(d))
-        nc = web.body('call::GrpcWebCall::<B>::new_client')
-        ag = mirlib.aggregates(nc, 'call::GrpcWebCall')
-        R.check(len(ag) == 1 and const_val(nc.origin(ag[0][4][ag[0][3]['fields'].index('client')])) is True, 'C17.R3', 'new_client:client=true', site(nc), 'client flag true')
+            ctor_calls = [(bb_, t_) for bb_, t_ in b.calls() if 'GrpcWebCall' in (t_.get('fn') or '') and t_['dest']['l'] == 0]
+            if len(ctor_calls) != 1:
+                raise CheckError('ANCHOR-MISSING: %s does not return the result of one GrpcWebCall constructor call (%d)' % (nm, len(ctor_calls)))
+            bb, t = ctor_calls[0]
+            cal, flds = built_by(b, t)
+            dv = flds.get('direction', [])
+            R.check(len(dv) == 1 and dv[0][0] == 'agg' and dv[0][1].get('variant') == dirn, 'C17.R3', '%s:direction' % nm, site(b, bb), 'direction = %s' % [show(x) for x in dv])
+            cv = flds.get('client', [])
+            R.check(len(cv) == 1 and const_val(cv[0]) is True, 'C17.R3', 'new_client:client=true' if nm == 'client_request' else 'new_client:client=true@response', site(cal), 'client flag of the body built by %s: %s' % (nm, [show(x) for x in cv]))
